@@ -67,6 +67,8 @@ def declare(spec):
                      ("C04:one-out-one-in", "self.number_in_service == old(self.number_in_service) and self.number_of_individuals == old(self.number_of_individuals)"),
                      ("C08:the-victim-keeps-its-place-in-its-line-and-no-line-is-reordered",
                       "forall_in(self.individuals, lambda q: S(q) == old(S(q)))"),
+                     ("C02+C13:a-customer-sent-back-to-waiting-has-no-patience-end-in-the-past",
+                      f"implies(self.reneging is True and has({V}, 'reneging_date'), {V}.reneging_date >= self.now)"),
                  ]),
             dict(name="reroute", when="self.priority_preempt == 'reroute'", requires=REROUTE_PRE, modifies=["*"],
                  expect_calls={"release": 1},
